@@ -1172,8 +1172,9 @@ def check_bitpatterns(ctx, F):
         for (p, q, vals), mp in zip(ch, m):
             try:
                 sims = sim_match(q, vals)
-            except pyrtl.PyrtlError as e:
-                F.spec_fail('match_bitpattern:rejects', (len(p), 0, 0), 'match_bitpattern(w, %r) raised %s' % (q, e),
+            except Exception as e:   # any exception: one pattern must not abort the run
+                F.spec_fail('match_bitpattern:rejects', (len(p), 0, 0), 'match_bitpattern(w, %r) raised %s: %s'
+                            % (q, type(e).__name__, e),
                             {'call': 'match_bitpattern(Input(%d), %r)' % (len(p), q)})
                 continue
             back = {v: f for f, v in accepted.get(p, [])}
